@@ -17,6 +17,7 @@ import (
 	codectypes "github.com/cosmos/cosmos-sdk/codec/types"
 	"github.com/palomachain/paloma/v2/util/libcons"
 	consensustypes "github.com/palomachain/paloma/v2/x/consensus/types"
+	evmkeeper "github.com/palomachain/paloma/v2/x/evm/keeper"
 	evmtypes "github.com/palomachain/paloma/v2/x/evm/types"
 
 	sdkmath "cosmossdk.io/math"
@@ -121,6 +122,7 @@ func TestC08(t *testing.T) {
 	blocks := int(envInt("VERIF_BLOCKS", 130))
 	defer func() { time.Local = time.UTC }()
 	c08RepeatedEvaluation(t, r)
+	c08RepeatedRanking(t, r)
 	c08PeriodicSweeps(t, r)
 	for c := 0; c < r.N; c++ {
 		seed := r.Rng.Int63()
@@ -332,6 +334,63 @@ func c08RepeatedEvaluation(t *testing.T, r *Rec) {
 		}
 		r.Op(line, out)
 		r.Stat("repeat.evidence")
+	}
+}
+
+// c08RepeatedRanking: "relayer selection ... gives the same answer every time it is evaluated on the same state".
+// The ranking is built from a Go map; it is a function of the state only if the comparator it sorts with is a
+// total order.  Exact ties are easy (the address decides); the class random scores never produce is the NEAR tie:
+// ladders of validators whose scores differ by steps between 1e-12 and 1e-3 inside a window fixed by two anchors,
+// with the address order drawn independently of the score order.  Each state is ranked 96 times.
+func c08RepeatedRanking(t *testing.T, r *Rec) {
+	dec := func(s string) sdkmath.LegacyDec { return sdkmath.LegacyMustNewDecFromStr(s) }
+	steps := []string{"0.000000000001", "0.000000001", "0.0000001", "0.0000006", "0.000001", "0.0000013", "0.000003", "0.0001", "0.001"}
+	weightSets := [][5]string{{"1", "1", "1", "1", "1"}, {"1", "0", "0", "0", "0"}, {"0.5", "0.2", "0.2", "0.05", "0.05"}, {"0", "1", "0", "0", "0"}}
+	ctx := sdk.Context{}.WithBlockHeight(7)
+	for i := 0; i < 60; i++ {
+		n := 3 + r.Rng.Intn(5)
+		step := dec(steps[r.Rng.Intn(len(steps))])
+		ws := weightSets[r.Rng.Intn(len(weightSets))]
+		weights := evmtypes.RelayWeightDec{Fee: dec(ws[0]), Uptime: dec(ws[1]), SuccessRate: dec(ws[2]), ExecutionTime: dec(ws[3]), FeatureSet: dec(ws[4])}
+		field := r.Rng.Intn(2) // the ladder lives in the fee (reversed scale) or in the uptime
+		infos := map[string]evmkeeper.ValidatorInfo{}
+		var desc []string
+		perm := r.Rng.Perm(n + 2)
+		for k := 0; k < n+2; k++ {
+			addr := valAddrOf(1 + perm[k]).String()
+			v := dec("1.5").Sub(step.MulInt64(int64(k)))
+			switch k {
+			case n: // anchors fix the normalisation window to [1, 2]
+				v = dec("1")
+			case n + 1:
+				v = dec("2")
+			}
+			info := evmkeeper.ValidatorInfo{Fee: dec("1"), Uptime: dec("1"), SuccessRate: dec("0.5"), ExecutionTime: dec("1"), FeatureSet: dec("1")}
+			if field == 0 {
+				info.Fee = v
+			} else {
+				info.Uptime = v
+			}
+			infos[addr] = info
+			desc = append(desc, fmt.Sprintf("%d:%s", 1+perm[k], v))
+		}
+		seen := map[string]int{}
+		for k := 0; k < 96; k++ {
+			order, err := evmkeeper.VerifRankValidators(ctx, infos, weights)
+			out := strings.Join(order, ",")
+			if err != nil {
+				out = "error"
+			}
+			seen[out]++
+		}
+		out := "equal"
+		if len(seen) > 1 {
+			out = "diverged"
+			r.Hit("repeated_evaluation_equal", fmt.Sprintf("the relayer ranking of one state gave %d different orders over 96 evaluations", len(seen)),
+				map[string]interface{}{"validators(index:value)": desc, "ladder_step": step.String(), "ladder_in": []string{"fee", "uptime"}[field], "weights": ws})
+		}
+		r.Op(fmt.Sprintf("block 0 %d", 1000+i), out)
+		r.Stat("repeat.ranking")
 	}
 }
 
